@@ -64,6 +64,21 @@ def formula_crowding(vals):
     return out
 
 
+def extremes_have_inf(vals, cds):
+    """for every objective some individual holding the minimum and some individual holding the maximum value
+    has an infinite distance (with pairwise distinct values: *the* two extremes); tie-robust"""
+    if not vals:
+        return True
+    for i in range(len(vals[0])):
+        col = [v[i] for v in vals]
+        lo, hi = min(col), max(col)
+        if not any(c == lo and d == INF for c, d in zip(col, cds)):
+            return False
+        if not any(c == hi and d == INF for c, d in zip(col, cds)):
+            return False
+    return True
+
+
 def distinct_per_objective(vals):
     if not vals:
         return True
@@ -119,6 +134,36 @@ def cfl(l):
 
 def cql(l):
     return clist([cq(x) for x in l])
+
+
+def correspond_robust(run, terms, cases, shard):
+    """run.correspond in chunks of NCPU shards; a chunk in which a coqc process died without any output
+    (killed by the kernel's OOM killer / timeout on an overloaded machine) is evaluated again, at most twice.
+    A chunk counts only if a complete coqc evaluation of all its shards succeeded; Coq errors with a message
+    and genuine disagreements are never retried away."""
+    import time
+    import vlib
+    per = shard * max(1, vlib.NCPU)
+    retried = 0
+    for c, start in enumerate(range(0, len(terms), per)):
+        t, cs = terms[start:start + per], cases[start:start + per]
+        for attempt in range(3):
+            g = "all_%d" % c if attempt == 0 else "all_%d_retry%d" % (c, attempt)
+            before = len(run.disagreements)
+            traces_before = run.traces
+            run.correspond(g, "C05", t, cs, shard=shard)
+            new = run.disagreements[before:]
+            killed = [d for d in new if d.get("coq_error") is not None and not (d["coq_error"].get("log") or "").strip()]
+            if not killed or attempt == 2:
+                break
+            # infrastructure failure: forget this attempt completely and evaluate the chunk again
+            del run.disagreements[before:]
+            run.traces = traces_before
+            run.corr_groups[g + "_killed"] = run.corr_groups.pop(g)
+            retried += 1
+            time.sleep(5 + 10 * attempt)
+    if retried:
+        run.notes.append("%d correspondence chunk(s) re-evaluated after coqc was killed without output (machine overload)" % retried)
 
 
 def main(run):
@@ -253,6 +298,9 @@ def main(run):
         for d in range(maxd + 1):
             members = [j for j in range(n) if depth[j] == d]
             fv = [obs_vals[j] for j in members]
+            if not extremes_have_inf(fv, [cd[j] for j in members]):
+                run.oracle_violation("an objective's extreme individuals of a front do not have infinite crowding distance", case,
+                                     observed={"front_depth": d})
             if not distinct_per_objective(fv):
                 continue
             stats["formula_checked_fronts"] += 1
@@ -310,6 +358,8 @@ def main(run):
             run.note_case(case, True)
             run.oracle_violation("assignCrowdingDist left an individual without crowding_dist", case)
             return
+        if pop and not extremes_have_inf(obs_vals, cd):
+            run.oracle_violation("an objective's extreme individuals do not have infinite crowding distance", case)
         if pop and distinct_per_objective(obs_vals):
             exp = formula_crowding(obs_vals)
             for j, (o, e) in enumerate(zip(cd, exp)):
@@ -337,7 +387,7 @@ def main(run):
     if run.thorough:
         for n in (1, 2, 3):
             for vals in itertools.product(grid2, repeat=n):
-                for w in signs2:
+                for w in (signs2 if n < 3 else rng.sample(signs2, 2)):
                     all_k_nd(w, vals)
         for vals in itertools.combinations_with_replacement(grid2, 4):
             vals = list(vals)
@@ -397,7 +447,7 @@ def main(run):
                 vals[rng.randrange(n)] = list(vals[rng.randrange(n)])
         return vals
 
-    for _ in range(run.scale(260, 4000)):
+    for _ in range(run.scale(200, 3000)):
         n = rng.choice([1, 2, 3, 4, 5, 6, 8, 10, 12, 16, 20, 30]) if rng.random() < 0.7 else rng.randint(1, 30)
         nobj = rng.choice([2, 2, 3, 4])
         vals = rand_values(n, nobj)
@@ -422,4 +472,4 @@ def main(run):
         crowd_case(rand_weights(nobj), vals)
 
     run.extra_cov["c05_stats"] = stats
-    run.correspond("all", "C05", terms, cases, shard=run.scale(150, 400))
+    correspond_robust(run, terms, cases, shard=run.scale(150, 400))
